@@ -38,3 +38,12 @@ for _pid in ("C05", "C04", "C16"):
                                                                      "there is no bridge theorem for it.")
         if _pid == "C05":
             LEVEL[_pid]["technique"] += _GEN7_ZW_TECH
+
+# Task 3 of "gen7": sortMoves regenerated with sort.Sort as a call oracle; the value loop bridged (Props/C05_gen5.lean).
+_GEN7_SORT_TEXT = (" sortMoves REGENERATED (Generated/FuncsSort.lean, gen/zwsort.go): the scratch buffer, the loop that stores mg.ai.history[m] for every move of mg.ms, and sort.Sort as a declared ORACLE handed the values "
+                   "(ms, vs[:len(ms)]) whose result is assigned to mg.ms (the aliasing of the struct's slices with mg.ms / the buffer is relied on by declaration). PROVED (Props/C05_gen5.lean sortMoves_is_source): for "
+                   "every history map, scratch buffer (nil, dirty, too short, longer), list and oracle the regenerated sortMoves never panics and hands sort.Sort exactly the list and the history value of each of its moves "
+                   "(0 when absent). NOT proved, only re-checked per op by fn.sortmoves (generator FNSORT, 160 ops): that sort.Sort returns a permutation sorted by those values - it stays the ordering oracle of the model.")
+for _pid in ("C05", "C04", "C16"):
+    if _pid in LEVEL:
+        LEVEL[_pid]["text"] += _GEN7_SORT_TEXT if _pid == "C05" else (" sortMoves' value loop is regenerated too (Generated/FuncsSort.lean; Props/C05_gen5.lean sortMoves_is_source), sort.Sort staying an oracle re-checked by fn.sortmoves (generator FNSORT runs here too).")
